@@ -121,6 +121,10 @@ def rand_value(rng, name, n):
     if name in GC:
         from props.c10 import ref_enc
         v = rng.randrange(0, 40) if name in ('ue', 'uie') else rng.randrange(-20, 21)
+        if rng.random() < 0.25:
+            k = rng.choice([7, 8, 31, 32, 33, 47, 48, 49, 50, 52, 53, 54, 63, 64, 65, 70, 100])
+            v = (1 << k) + rng.choice([-3, -2, -1, 0, 1])
+            if name in ('se', 'sie') and rng.random() < 0.5: v = -v
         return v, ref_enc(name, v), v
 
 def gen_cases(rng, tier):
@@ -161,6 +165,15 @@ def gen_cases(rng, tier):
         vals = [rand_value(rng, nm, n) for nm, n in toks]
         n0 = len(items[0][1])
         yield {'op': 'packlist', 'fmts': [i[0] for i in items], 'vals': [v[0] for v in vals], 'bits': [v[1] for v in vals], 'n0': n0}
+    for _ in range(80 if tier == 'quick' else 1200):
+        name = rng.choice(['hex', 'bin', 'oct', 'bytes', 'bits'])
+        w = {'hex': 4, 'bin': 1, 'oct': 3, 'bytes': 8, 'bits': 1}[name]
+        nd = rng.randrange(1, 5)
+        stated_units = rng.choice([0, 0, nd - 1, nd + 1, 2 * nd])            # digits (bytes for 'bytes'); never nd
+        stated = stated_units * (1 if name == 'bytes' else w)
+        val = ''.join(rng.choice({'hex': '0123456789abcdef', 'bin': '01', 'oct': '01234567', 'bytes': 'ab', 'bits': '01'}[name]) for _ in range(nd))
+        other = rng.choice([None, ('uint:8', 1), ('bool', True)])
+        yield {'op': 'missized', 'name': name, 'stated': stated, 'val': val, 'spell': rng.choice(['colon', 'joined', 'kw']), 'other': other, 'first': rng.random() < 0.5}
     bad = ['(uint:8', 'uint:8)', '2*(uint:8', 'x*(uint8), 2*(uint8)', '*(uint:8)', '2*', 'uint:8,,(', '((uint:8)', ')(', '3*(', 'a*(b*(c))', '2*(uint8))', 'uint:8=1=2', ':8', 'uint::8', '2**uint8', '-1*(uint8)', '1.5*(uint8)']
     for s in bad:
         yield {'op': 'malformed', 'fmt': s}
@@ -191,6 +204,20 @@ def run_impl(c):
                 r[name] = list(attempt(fn, 5))
             return r
         return attempt(f, 30)
+    if c['op'] == 'missized':
+        nm, st, val = c['name'], c['stated'], c['val']
+        tok = {'colon': f'{nm}:{st}', 'joined': f'{nm}{st}', 'kw': f'{nm}:n'}[c['spell']]
+        kw = {'n': st} if c['spell'] == 'kw' else {}
+        pyv = val.encode() if nm == 'bytes' else (('0b' + val) if nm == 'bits' else val)
+        fm, vs = [tok], [pyv]
+        if c['other']:
+            if c['first']: fm, vs = [c['other'][0]] + fm, [c['other'][1]] + vs
+            else: fm, vs = fm + [c['other'][0]], vs + [c['other'][1]]
+        r = {'pack': list(attempt(lambda: pack(', '.join(fm), *vs, **kw).bin))}
+        if nm != 'bytes' and c['spell'] != 'kw':
+            emb = ', '.join(f'{t}={v}' for t, v in zip(fm, vs))
+            r['string'] = list(attempt(lambda: Bits(emb).bin))
+        return ('ok', r)
     vals = [v for v in c['vals'] if v is not None]
     if c['op'] == 'packlist':
         def g():
@@ -228,6 +255,11 @@ def oracle(c, obs):
         for name, r in obs[1].items():
             if r[0] == 'err' and r[1] not in ('ValueError', 'ReadError', 'BsError', 'TypeError'):
                 return f"{name}({c['fmt']!r}) raised {r[1]} (only CreationError/ValueError/ReadError/Error are documented); OutOfFuel = did not terminate"
+        return None
+    if c['op'] == 'missized':
+        for how, r in obs[1].items():
+            if r != ['err', 'ValueError']:
+                return f"{how}: token {c['name']} with the stated length {c['stated']} ({c['spell']}) and the value {c['val']!r} ({len(c['val'])} digits) must raise CreationError, got {r}"
         return None
     if c['op'] == 'packlist':
         if obs[0] != 'ok': return f"pack({c['fmts']}, {c['vals']}) raised {obs}"
